@@ -73,10 +73,11 @@ def render_module(m, style="header", comments=False):
         if x.get("params"):
             head += " #(" + ", ".join(".%s(%s)" % kv for kv in x["params"].items()) + ")"
         head += " " + esc(x["name"])
+        sep = ", // first comment\n   // second comment in a row\n   /* and a block */ " if comments == "dense" else ", "
         if x.get("positional"):
-            body = ", ".join(expr_text(e) for _, e in x["conns"])
+            body = sep.join(expr_text(e) for _, e in x["conns"])
         else:
-            body = ", ".join(".%s(%s)" % (esc(p).strip() if not p.startswith("\\") else esc(p), expr_text(e)) for p, e in x["conns"])
+            body = sep.join(".%s(%s)" % (esc(p).strip() if not p.startswith("\\") else esc(p), expr_text(e)) for p, e in x["conns"])
         w("%s (%s);" % (head, body))
         if comments:
             w("  // between instances")
